@@ -23,7 +23,7 @@ import copy
 from . import rectoy as T
 from . import reclive as R
 
-TRANSLATORS = []
+TRANSLATORS = ["record"]
 
 MANIFEST = {
     "text": "Proof: in the Lean model Tls.Rec of RecordLayer.recvRecord (all five unprotect paths with every length check and error "
@@ -118,7 +118,14 @@ def toy_decisions(ctx):
                 ctx.disagree("toy-recvRecord", m, o[:200], repr(e2)[:200])
         del lines[:], exp[:], meta[:]
 
+    cap = ctx.pick(170, 1100)
     for name, cfg, pr in T.path_configs(rng, ctx.thorough()):
+        if _since_run(ctx) > cap:
+            ctx.count("toy:skipped-out-of-time")
+            cut = ctx.extra.setdefault("streams_cut_by_time", [])
+            if "toy decision differential: remaining path configurations dropped" not in cut:
+                cut.append("toy decision differential: remaining path configurations dropped")
+            continue
         bs = max(pr["bs"], 1)
         # payload lengths incl. the ones that make the CBC padding-length byte 0 (MtE and EtM)
         lens = sorted({0, 1, 5, bs - 1, (bs - 1 - pr["dlen"]) % bs, bs, 40} | ({300} if ctx.thorough() else set()))
@@ -1050,70 +1057,105 @@ def live_configs(ctx):
                            kx=[kx] if kx else None, suite=suite)
 
 
+def directed_classes(ctx, cfg, i):
+    """every directed mutation class of one configuration at connection level (fresh handshake each)"""
+    rng = ctx.rng
+    classes = list(L2_CLASSES) + (L2_CLASSES_13 if cfg["ver"] >= (3, 4) else [])
+    if not ctx.thorough() and cfg["cipher"] in R.SLOW:
+        classes = ["flip", "replay", "trunc", "reflect"]
+    for n, cls in enumerate(classes):
+        modes = ["read", "getmsg"] if ctx.thorough() else [("read", "getmsg")[(n + i) % 2]]
+        if cls in ("flip", "oversize", "outer-type", "outer-version", "trunc"):
+            modes = ["read", "getmsg"]
+        for mode in modes:
+            who = rng.choice(["client", "server"])
+            live_connection_case(ctx, cfg, who, cls, mode)
+    # keyed faulty peer at connection level: every must-reject / bad-type record of this path
+    probe = R.connect(cfg)
+    if probe.client.state == "done" and probe.server.state == "done":
+        names = [c[0] for c in craft_keyed(peer_write_state(probe, "server"), cfg["ver"], cfg["ver"] >= (3, 4), 16384, rng, only="")
+                 if c[2] == "reject" or c[2][0] == "conn-reject"]
+        lp = [x for x in names if "longpad" in x]
+        names = [x for x in names if "longpad" not in x] + rng.sample(lp, min(len(lp), 3 if not ctx.thorough() else 12))
+        if not ctx.thorough() and cfg["cipher"] in R.SLOW:
+            names = names[:3] + names[-1:]
+        for n, nm in enumerate(names):
+            live_connection_case(ctx, cfg, ("client", "server")[(n + i) % 2], "keyed:" + nm,
+                                 ("read", "getmsg")[(n // 2 + i) % 2])
+    if cfg["ver"] >= (3, 4):
+        # unprotected ChangeCipherSpec after the handshake: both roles x {client with / without a
+        # certificate, server with / without reqCert} x {before / after the first protected record}
+        n = 0
+        for who in ("client", "server"):
+            for (cc, rq) in ((False, False), (True, True), (False, True)):
+                for cls in ("plaintext-ccs", "plaintext-ccs-after-data"):
+                    n += 1
+                    live_connection_case(ctx, dict(cfg, client_cert=cc, req_cert=rq), who, cls,
+                                         ("read", "getmsg")[(n + i) % 2])
+            # ... and after a handshake that went through a HelloRetryRequest (the client's
+            # compatibility CCS is sent early there)
+            for cls in ("plaintext-ccs", "plaintext-ccs-after-data"):
+                n += 1
+                live_connection_case(ctx, dict(cfg, hrr=True), who, cls, ("read", "getmsg")[(n + i) % 2])
+
+
+def guarded(ctx, cfg, fn):
+    try:
+        fn()
+    except Exception as e:  # noqa: B902 - the machinery must not die on one configuration
+        import traceback
+        ctx.violation("c02:exception", "exception in the receive path or the harness: %s: %s" % (type(e).__name__, e),
+                      dict(stage="exception", cfg=jcfg(cfg), traceback=traceback.format_exc()[-1500:]))
+
+
 def live_streams(ctx):
+    """Order: (1) every directed class of every configuration at connection level — TLS 1.3 first — and
+    (2) the record-layer windows with the deterministic families (keyed faulty peer incl. long paddings,
+    truncation inside a run of equal bytes, all replay / reorder pairs, every bit flip of the first record)
+    run whatever the machine load, outside any time budget.  Only (3) the additional windows of the thorough
+    tier (other receiver, longer records) are cut by time; what was cut is recorded in the evidence."""
     rng = ctx.rng
     budget = ctx.pick(140, 1000)
-    i = 0
     cfgs = list(live_configs(ctx))
-    if ctx.thorough():
-        rng.shuffle(cfgs)
-    for cfg in cfgs:
-        i += 1
-        if ctx.elapsed() > budget:
-            ctx.count("live:skipped-out-of-time")
-            continue
-        try:
-            recv = "server" if (i + ctx.seed) % 2 else "client"
+    cfgs.sort(key=lambda c: 0 if c["ver"] >= (3, 4) else 1)       # stable: TLS 1.3 window classes first
+    cut = ctx.extra.setdefault("streams_cut_by_time", [])
+    recvs = {}
+    for i, cfg in enumerate(cfgs, 1):
+        guarded(ctx, cfg, lambda: directed_classes(ctx, cfg, i))
+    for i, cfg in enumerate(cfgs, 1):
+        recv = "server" if (i + ctx.seed) % 2 else "client"
+        recvs[i] = recv
+
+        def windows():
             live_recordlayer(ctx, cfg, recv)
             if R.CIPHER_SHAPE[cfg["cipher"]][0] == "block" and (not cfg["etm"] or cfg["ver"] == (3, 0) or ctx.thorough()):
                 live_recordlayer(ctx, cfg, recv, variant=3)
-            if ctx.thorough():
+        guarded(ctx, cfg, windows)
+    if ctx.thorough():
+        order = list(enumerate(cfgs, 1))
+        rng.shuffle(order)
+        for i, cfg in order:
+            if _since_run(ctx) > budget:
+                ctx.count("live:skipped-out-of-time")
+                if "L1: additional windows (other receiver, longer records) dropped" not in cut:
+                    cut.append("L1: additional windows (other receiver, longer records) dropped")
+                continue
+            recv = recvs[i]
+
+            def more():
                 live_recordlayer(ctx, cfg, "client" if recv == "server" else "server", variant=1)
                 live_recordlayer(ctx, cfg, recv, variant=2)
-            classes = list(L2_CLASSES) + (L2_CLASSES_13 if cfg["ver"] >= (3, 4) else [])
-            if not ctx.thorough() and cfg["cipher"] in R.SLOW:
-                classes = ["flip", "replay", "trunc", "reflect"]
-            for n, cls in enumerate(classes):
-                modes = ["read", "getmsg"] if ctx.thorough() else [("read", "getmsg")[(n + i) % 2]]
-                if cls in ("flip", "oversize", "outer-type", "outer-version", "trunc"):
-                    modes = ["read", "getmsg"]
-                for mode in modes:
-                    who = rng.choice(["client", "server"])
-                    live_connection_case(ctx, cfg, who, cls, mode)
-            # keyed faulty peer at connection level: every must-reject / bad-type record of this path
-            probe = R.connect(cfg)
-            if probe.client.state == "done" and probe.server.state == "done":
-                names = [c[0] for c in craft_keyed(peer_write_state(probe, "server"), cfg["ver"], cfg["ver"] >= (3, 4), 16384, rng, only="")
-                         if c[2] == "reject" or c[2][0] == "conn-reject"]
-                lp = [x for x in names if "longpad" in x]
-                names = [x for x in names if "longpad" not in x] + rng.sample(lp, min(len(lp), 3 if not ctx.thorough() else 12))
-                if not ctx.thorough() and cfg["cipher"] in R.SLOW:
-                    names = names[:3] + names[-1:]
-                for n, nm in enumerate(names):
-                    live_connection_case(ctx, cfg, ("client", "server")[(n + i) % 2], "keyed:" + nm,
-                                         ("read", "getmsg")[(n // 2 + i) % 2])
-            if cfg["ver"] >= (3, 4):
-                # unprotected ChangeCipherSpec after the handshake: both roles x {client with / without a
-                # certificate, server with / without reqCert} x {before / after the first protected record}
-                n = 0
-                for who in ("client", "server"):
-                    for (cc, rq) in ((False, False), (True, True), (False, True)):
-                        for cls in ("plaintext-ccs", "plaintext-ccs-after-data"):
-                            n += 1
-                            live_connection_case(ctx, dict(cfg, client_cert=cc, req_cert=rq), who, cls,
-                                                 ("read", "getmsg")[(n + i) % 2])
-                    # ... and after a handshake that went through a HelloRetryRequest (the client's
-                    # compatibility CCS is sent early there)
-                    for cls in ("plaintext-ccs", "plaintext-ccs-after-data"):
-                        n += 1
-                        live_connection_case(ctx, dict(cfg, hrr=True), who, cls, ("read", "getmsg")[(n + i) % 2])
-        except Exception as e:  # noqa: B902 - the machinery must not die on one configuration
-            import traceback
-            ctx.violation("c02:exception", "exception in the receive path or the harness: %s: %s" % (type(e).__name__, e),
-                          dict(stage="exception", cfg=jcfg(cfg), traceback=traceback.format_exc()[-1500:]))
+            guarded(ctx, cfg, more)
+
+
+def _since_run(ctx):
+    import time as _time
+    return _time.time() - getattr(ctx, "_t_run", ctx.t0)
 
 
 def run(ctx):
+    import time as _time
+    ctx._t_run = _time.time()      # budgets count from here: the Lean build before it does not eat them
     ctx.rule = ("toy stream: path x version x content type x payload length (incl. padding-length-0 records) x mutation (all bit "
                 "flips of short records, all truncations, extensions, seq+-1, type, version, chaining state, random, zeros) x "
                 "early-data window x receive limit; L1: version x cipher path x EtM, 4-record honest windows, every bit flip and "
@@ -1125,10 +1167,11 @@ def run(ctx):
                        "illegal_parameter, decode_error (all fatal)",
                        "early_data_ok (TLS 1.3 server right after ClientHello) makes undecryptable records non-fatal by design; "
                        "covered by the toy stream and early_data_skip_safe, not by the live streams (which start after the handshake)"]
-    toy_decisions(ctx)
-    toy_keyed(ctx)
+    # directed / deterministic families first and outside any time budget; the random toy bulk last
     live_streams(ctx)
     ctx.extra.pop("_variant", None)
+    toy_keyed(ctx)
+    toy_decisions(ctx)
 
 
 def replay(ctx, rep):
